@@ -69,13 +69,15 @@ NS = {}
 
 
 def setup_ns():
-    import spake2
-    from spake2 import util, groups, params, ed25519_basic, ed25519_group
-    from spake2 import spake2 as spake2mod
-    from spake2.parameters import all as pall
-    NS.update(dict(spake2=spake2, util=util, groups=groups, params=params, ed25519_basic=ed25519_basic,
-                   ed25519_group=ed25519_group, spake2mod=spake2mod, pall=pall, random=random,
-                   importlib=importlib))
+    NS.update(dict(random=random, importlib=importlib))
+    # the real modules; an import failure (a broken working tree) is reported per request, not fatal here
+    for alias, name in (("util", "spake2.util"), ("groups", "spake2.groups"), ("params", "spake2.params"),
+                        ("ed25519_basic", "spake2.ed25519_basic"), ("ed25519_group", "spake2.ed25519_group"),
+                        ("spake2mod", "spake2.spake2"), ("pall", "spake2.parameters.all"), ("spake2", "spake2")):
+        try:
+            NS[alias] = importlib.import_module(name)
+        except BaseException as e:
+            NS.setdefault("import_errors", {})[name] = "%s: %s" % (type(e).__name__, e)
     try:
         import spec.concrete as sc
         NS["spec"] = sc
@@ -86,7 +88,8 @@ def setup_ns():
 def handle(req):
     op = req["op"]
     if op == "ping":
-        return {"ok": True, "repo": REPO, "file": NS["spake2"].__file__}
+        return {"ok": True, "repo": REPO, "file": getattr(NS.get("spake2"), "__file__", None),
+                "import_errors": NS.get("import_errors", {})}
     if op == "global":
         mod = importlib.import_module(req["module"])
         v = getattr(mod, req["name"])
